@@ -57,6 +57,7 @@ type rtEnv struct {
 	tr     *sim.Trace
 	start  time.Time
 	dead   map[int]bool
+	silent map[int]bool
 	empty  map[int]bool
 	speaks map[int]bool
 	lkKey  string // key of the active user lookup ("" if none)
@@ -106,7 +107,7 @@ func runRT(t *testing.T, sc *RTScenario, ch sim.Chooser) (evs []sim.Ev) {
 func runRTInBubble(t *testing.T, sc *RTScenario, ch sim.Chooser) []sim.Ev {
 	r := rand.New(rand.NewSource(sc.Seed))
 	e := &rtEnv{sc: sc, num: map[peer.ID]int{}, gate: &sim.Gate{}, tr: &sim.Trace{}, start: time.Now(),
-		dead: map[int]bool{}, empty: map[int]bool{}, speaks: map[int]bool{}}
+		dead: map[int]bool{}, silent: map[int]bool{}, empty: map[int]bool{}, speaks: map[int]bool{}}
 	for i := 0; i <= sc.N; i++ {
 		id := sim.NewPeerID(r)
 		e.ids = append(e.ids, id)
@@ -135,12 +136,16 @@ func runRTInBubble(t *testing.T, sc *RTScenario, ch sim.Chooser) []sim.Ev {
 		tr.AddBuf(1, it.Label, "Sent", "p", e.n(rpc.Peer), "kind", "req", "cls", e.class(rpc), "speaks", e.speaks[e.n(rpc.Peer)], "ts", e.now())
 	}
 	e.gate.OnAbort = func(it *sim.Parked) {
+		why := "canceled"
+		if it.Ctx != nil && errors.Is(it.Ctx.Err(), context.DeadlineExceeded) {
+			why = "deadline" // the operation's own timeout expired: the peer did not answer in time
+		}
 		if it.Kind == "dial" {
-			tr.AddBuf(1, it.Label, "Abort", "p", e.n(it.Payload.(peer.ID)), "kind", "dial", "cls", "", "ts", e.now())
+			tr.AddBuf(1, it.Label, "Abort", "p", e.n(it.Payload.(peer.ID)), "kind", "dial", "cls", "", "why", why, "ts", e.now())
 			return
 		}
 		rpc := it.Payload.(*sim.RPC)
-		tr.AddBuf(1, it.Label, "Abort", "p", e.n(rpc.Peer), "kind", "req", "cls", e.class(rpc), "ts", e.now())
+		tr.AddBuf(1, it.Label, "Abort", "p", e.n(rpc.Peer), "kind", "req", "cls", e.class(rpc), "why", why, "ts", e.now())
 	}
 	filterNo := map[peer.ID]bool{}
 	for _, p := range sc.FilterNo {
@@ -225,6 +230,11 @@ func runRTInBubble(t *testing.T, sc *RTScenario, ch sim.Chooser) []sim.Ev {
 			tr.Add("Ext", kv...)
 		case "revive":
 			e.dead[ev.P] = false
+			e.silent[ev.P] = false
+			tr.Add("Ext", kv...)
+		case "silence":
+			e.silent[ev.P] = true
+			e.host.Net().SetConnected(e.ids[ev.P], false)
 			tr.Add("Ext", kv...)
 		case "empty":
 			e.empty[ev.P] = ev.Speaks
@@ -291,6 +301,28 @@ func runRTInBubble(t *testing.T, sc *RTScenario, ch sim.Chooser) []sim.Ev {
 	}
 
 	release := func(it *sim.Parked) {
+		// a silent peer never answers: time passes until the caller's own timeout
+		// (liveness pings: 10 s) or the transport's read timeout gives up
+		var sp peer.ID
+		if it.Kind == "dial" {
+			sp = it.Payload.(peer.ID)
+		} else {
+			sp = it.Payload.(*sim.RPC).Peer
+		}
+		if e.silent[e.n(sp)] && !e.dead[e.n(sp)] {
+			cls := ""
+			if it.Kind != "dial" {
+				cls = e.class(it.Payload.(*sim.RPC))
+			}
+			time.Sleep(11 * time.Second)
+			var out any = errors.New("sim: dial timed out")
+			if it.Kind != "dial" {
+				out = sim.RPCOutcome{Err: dht.ErrReadTimeout}
+			}
+			e.gate.Release(it, out)
+			tr.Add("Deliver", "p", e.n(sp), "kind", it.Kind, "cls", cls, "out", "timeout", "named", 0, "ts", e.now())
+			return
+		}
 		if it.Kind == "dial" {
 			p := it.Payload.(peer.ID)
 			var out any
@@ -444,7 +476,11 @@ func genRTScenario(r *rand.Rand, small bool) *RTScenario {
 		case 4, 5:
 			sc.Events = append(sc.Events, RTEvent{Kind: "kill", P: p})
 		case 6:
-			sc.Events = append(sc.Events, RTEvent{Kind: "revive", P: p})
+			if r.Intn(2) == 0 {
+				sc.Events = append(sc.Events, RTEvent{Kind: "revive", P: p})
+			} else {
+				sc.Events = append(sc.Events, RTEvent{Kind: "silence", P: p})
+			}
 		case 7, 8:
 			sc.Events = append(sc.Events, RTEvent{Kind: "lookup"})
 			if r.Intn(4) == 0 {
